@@ -467,25 +467,59 @@ def shown(name, lit):
     return lit[1:-1] if name == "str" else lit
 
 class Scenario:
-    """one composite variable: initial literal, a random sequence of single-component writes, a copy"""
-    def __init__(self, rng, k, t, nwrites):
+    """two composite variables v, w of one type between sentinels: a random sequence of single-component writes and
+    reads, whole-composite assignments between the EXISTING variables (`v = w;`), assignments from functions taking
+    and returning the composite by value (`v = id(w)`, `v = step(v)`, `v = mk()`), the same inside loops
+    (`while v.F0 < k { v = inc(v); }`), every component of both variables dumped after each step; then a copy into
+    a new variable that is mutated. Expectations come from the abstract record semantics (value copies)."""
+    def __init__(self, rng, k, t, nops, feat=None):
+        feat = feat or {}
         self.k = k; self.t = t; self.names = {}; self.decls = []
         self.used = [0]
-        self.tname = self.declare(t)
-        self.leaves = []             # (path, kind, primname)
+        self.is_arr = (t[0] == "a")
+        self.tname = self.tyname(t)
+        self.leaves = []             # (path, kind, primname), path starts with "v"
         self.collect("v", t)
         self.init = {}
-        lit = self.literal(rng, t, "v", top=True)
-        self.lit = lit
-        self.writes = []
-        # gate (finding F-ARRAYSET-NESTED): elements of a primitive array reached through a struct are never written
-        self.wleaves = [l for l in self.leaves if not l[0].endswith("]")] or self.leaves[:0]
-        for _ in range(nwrites if self.wleaves else 0):
-            path, kind, pn = rng.choice(self.wleaves)
-            if kind == "o" and rng.random() < 0.3: self.writes.append((path, kind, pn, "none"))
-            else: self.writes.append((path, kind, pn, fresh_value(rng, pn, self.used)))
-        self.copy_writes = [(path.replace("v", "c", 1), kind, pn, fresh_value(rng, pn, self.used)) for path, kind, pn in self.wleaves]
-        self.g1 = str(rng.randrange(10**6, 10**9)); self.g2 = str(-rng.randrange(10**6, 10**9))
+        self.lits = {}
+        for var in ("v", "w", "m"):
+            self.init_cur = {}
+            self.lits[var] = self.literal(rng, t, "v", top=True)
+            self.init[var] = self.init_cur
+        # gate (finding F-ARRAYSET-NESTED, lifted when its probe passes): elements of a primitive array are read-only
+        self.wleaves = [l for l in self.leaves if feat.get("arrayset") or not l[0].endswith("]")]
+        self.funcs = bool(feat.get("byval")) and not self.is_arr       # by-value parameters / returns
+        first = self.leaves[0] if self.leaves else None
+        self.inc_ok = self.funcs and first is not None and first[0] == "v.F0" and first[1] == "p" and first[2] in ("i32", "i64")
+        self.step_leaf = rng.choice(self.wleaves) if self.wleaves else None
+        self.step_val = fresh_value(rng, self.step_leaf[2], self.used) if self.step_leaf else None
+        self.ops = []
+        kinds = ["set"] * 4 + ["read"] * 2 + ["assign"] * 4 + ["loop"] * 1
+        if self.funcs: kinds += ["id"] * 2 + ["step"] * 2 + ["mk"] + (["incloop"] * 3 if self.inc_ok else [])
+        for _ in range(nops):
+            kd = rng.choice(kinds)
+            dst = rng.choice(["v", "w"]); src = "w" if dst == "v" else "v"
+            if kd in ("set", "read") and not (self.wleaves if kd == "set" else self.leaves): continue
+            if kd == "set":
+                path, kind, pn = self.wleaves[0] if rng.random() < 0.35 else rng.choice(self.wleaves)
+                val = "none" if (kind == "o" and rng.random() < 0.3) else fresh_value(rng, pn, self.used)
+                self.ops.append(("set", dst, (path, kind, pn), val))
+            elif kd == "read":
+                self.ops.append(("read", dst, self.leaves[0] if rng.random() < 0.6 else rng.choice(self.leaves)))
+            elif kd in ("assign", "id"):
+                self.ops.append((kd, dst, src))
+            elif kd == "step":
+                self.ops.append(("step", dst, rng.choice([dst, src])))
+            elif kd == "mk":
+                self.ops.append(("mk", dst))
+            elif kd == "loop":
+                body = rng.choice(["assign", "step"] if self.funcs and self.step_leaf else ["assign"])
+                lf = rng.choice(self.wleaves) if self.wleaves else None
+                self.ops.append(("loop", dst, src, rng.choice([1, 2, 3]), body, lf, fresh_value(rng, lf[2], self.used) if lf else None))
+            elif kd == "incloop":
+                self.ops.append(("incloop", dst, rng.choice([1, 2, 3])))
+        self.copy_writes = [(path, kind, pn, fresh_value(rng, pn, self.used)) for path, kind, pn in self.wleaves]
+        self.g1 = str(rng.randrange(10**6, 10**9)); self.g2 = str(-rng.randrange(10**6, 10**9)); self.g3 = str(rng.randrange(10**9, 10**12))
     def declare(self, t):
         key = tstr(t)
         if key in self.names: return self.names[key]
@@ -511,60 +545,132 @@ class Scenario:
             for i in range(t[1]): self.collect("%s[%d]" % (path, i), t[2])
     def literal(self, rng, t, path, top=False):
         if t[0] == "p":
-            v = fresh_value(rng, t[1], self.used); self.init[path] = shown(t[1], v); return v
+            v = fresh_value(rng, t[1], self.used); self.init_cur[path] = shown(t[1], v); return v
         if t[0] == "o":
             if rng.random() < 0.5:
-                self.init[path] = str(NONE_MARK); return "none"
-            v = fresh_value(rng, t[1][1], self.used); self.init[path] = v; return v
+                self.init_cur[path] = str(NONE_MARK); return "none"
+            v = fresh_value(rng, t[1][1], self.used); self.init_cur[path] = v; return v
         if t[0] == "s":
             body = "{ " + ", ".join(".F%d = %s" % (i, self.literal(rng, f, "%s.F%d" % (path, i))) for i, f in enumerate(t[1])) + " }"
             return body if top else body + " as " + self.declare(t)
         if t[0] == "a":
             return "[" + ", ".join(self.literal(rng, t[2], "%s[%d]" % (path, i)) for i in range(t[1])) + "]"
         raise ValueError(t)
-    def dump_code(self, var, ind="    "):
+    @staticmethod
+    def at(var, path):
+        return var + path[1:]
+    def read_code(self, var, leaf, ind="    "):
+        path, kind, pn = leaf
+        pth = self.at(var, path)
+        if kind == "p": return ["%sio::Println(%s);" % (ind, pth)]
+        n = self.tick()
+        return ["%slet d%s%d: %s = %d;" % (ind, var, n, pn, NONE_MARK),
+                "%slet t%s%d: %s = %s ?? d%s%d;" % (ind, var, n, pn, pth, var, n),
+                "%sio::Println(t%s%d);" % (ind, var, n)]
+    def dump_code(self, var, ind="    ", sent="g1, g2, g3"):
         out = []
-        for n, (path, kind, pn) in enumerate(self.leaves):
-            pth = path.replace("v", var, 1)
-            if kind == "p": out.append("%sio::Println(%s);" % (ind, pth))
-            else:
-                out.append("%slet d%s%d: %s = %d;" % (ind, var, self.tick(), pn, NONE_MARK))
-                out.append("%slet t%s%d: %s = %s ?? d%s%d;" % (ind, var, self._tick, pn, pth, var, self._tick))
-                out.append("%sio::Println(t%s%d);" % (ind, var, self._tick))
-        out.append("%sio::Println(g1, g2);" % ind)
+        for leaf in self.leaves:
+            out += self.read_code(var, leaf, ind)
+        out.append("%sio::Println(%s);" % (ind, sent))
         return out
     _tick = 0
     def tick(self):
         self._tick += 1; return self._tick
-    def code(self, byval):
+    def code(self, byval, ops=None):
         k = self.k
-        L = ["fn t%d() {" % k, "    let g1: i64 = %s;" % self.g1, "    let v: %s = %s;" % (self.tname, self.lit),
-             "    let g2: i64 = %s;" % self.g2, '    io::Println("#%d");' % k]
+        self._tick = 0
+        ops = self.ops if ops is None else ops
+        sent = "%s %s %s" % (self.g1, self.g2, self.g3)
+        L = ["fn t%d() {" % k, "    let g1: i64 = %s;" % self.g1, "    let v: %s = %s;" % (self.tname, self.lits["v"]),
+             "    let g2: i64 = %s;" % self.g2, "    let w: %s = %s;" % (self.tname, self.lits["w"]),
+             "    let g3: i64 = %s;" % self.g3, '    io::Println("#%d");' % k]
         exp = ["#%d" % k]
-        state = dict(self.init)
-        def dump_exp(st):
-            return [st[p] for p, _, _ in self.leaves] + ["%s %s" % (self.g1, self.g2)]
-        L += self.dump_code("v"); exp += dump_exp(state)
-        for path, kind, pn, val in self.writes:
-            L.append("    %s = %s;" % (path, val))
-            state[path] = str(NONE_MARK) if val == "none" else shown(pn, val)
-            L += self.dump_code("v"); exp += dump_exp(state)
+        st = {"v": dict(self.init["v"]), "w": dict(self.init["w"])}
+        def dump_exp(s1):
+            return [s1[p] for p, _, _ in self.leaves] + [sent]
+        def both():
+            L.extend(self.dump_code("v")); exp.extend(dump_exp(st["v"]))
+            L.extend(self.dump_code("w")); exp.extend(dump_exp(st["w"]))
+        def setv(s1, leaf, val):
+            s1[leaf[0]] = str(NONE_MARK) if val == "none" else shown(leaf[2], val)
+        both()
+        nloop = 0
+        for op in ops:
+            kd = op[0]
+            if kd == "set":
+                _, dst, leaf, val = op
+                L.append("    %s = %s;" % (self.at(dst, leaf[0]), val)); setv(st[dst], leaf, val)
+            elif kd == "read":
+                _, dst, leaf = op
+                L.extend(self.read_code(dst, leaf)); exp.append(st[dst][leaf[0]])
+                continue
+            elif kd == "assign":
+                _, dst, src = op
+                L.append("    %s = %s;" % (dst, src)); st[dst] = dict(st[src])
+            elif kd == "id":
+                _, dst, src = op
+                L.append("    %s = id%d(%s);" % (dst, k, src)); st[dst] = dict(st[src])
+            elif kd == "step":
+                _, dst, src = op
+                L.append("    %s = step%d(%s);" % (dst, k, src)); st[dst] = dict(st[src]); setv(st[dst], self.step_leaf, self.step_val)
+            elif kd == "mk":
+                _, dst = op
+                L.append("    %s = mk%d();" % (dst, k)); st[dst] = dict(self.init["m"])
+            elif kd == "loop":
+                _, dst, src, n, body, lf, lv = op
+                nloop += 1
+                L += ["    let n%d: i32 = 0;" % nloop, "    while n%d < %d {" % (nloop, n)]
+                if body == "assign": L.append("        %s = %s;" % (dst, src))
+                else: L.append("        %s = step%d(%s);" % (dst, k, src))
+                if lf: L.append("        %s = %s;" % (self.at(dst, lf[0]), lv))
+                L += ["        n%d = n%d + 1;" % (nloop, nloop), "    }"]
+                st[dst] = dict(st[src])
+                if body == "step": setv(st[dst], self.step_leaf, self.step_val)
+                if lf: setv(st[dst], lf, lv)
+            elif kd == "incloop":
+                _, dst, n = op
+                cur = int(st[dst]["v.F0"]); hi = RANGES[self.leaves[0][2]][1]
+                if cur > hi - 10: continue
+                L += ["    while %s.F0 < %d {" % (dst, cur + n), "        %s = inc%d(%s);" % (dst, k, dst), "    }"]
+                st[dst]["v.F0"] = str(cur + n)
+            both()
         L.append("    let c := v;")
-        cstate = dict(state)
+        cstate = dict(st["v"])
         for path, kind, pn, val in self.copy_writes:
-            L.append("    %s = %s;" % (path, val))
-            cstate["v" + path[1:]] = shown(pn, val)
-        L += self.dump_code("v"); exp += dump_exp(state)
+            L.append("    %s = %s;" % (self.at("c", path), val))
+            cstate[path] = shown(pn, val)
+        L += self.dump_code("v"); exp += dump_exp(st["v"])
         L += self.dump_code("c"); exp += dump_exp(cstate)
         pre = []
+        if self.funcs:
+            pre += ["fn id%d(x: %s) -> %s {" % (k, self.tname, self.tname), "    return x;", "}"]
+            if self.step_leaf:
+                pre += ["fn step%d(x: %s) -> %s {" % (k, self.tname, self.tname),
+                        "    %s = %s;" % (self.at("x", self.step_leaf[0]), self.step_val), "    return x;", "}"]
+            pre += ["fn mk%d() -> %s {" % (k, self.tname), "    return %s as %s;" % (self.lits["m"], self.tname), "}"]
+            if self.inc_ok:
+                pre += ["fn inc%d(x: %s) -> %s {" % (k, self.tname, self.tname), "    x.F0 = x.F0 + 1;", "    return x;", "}"]
         if byval:
-            pre = ["fn d%d(v: %s, g1: i64, g2: i64) {" % (k, self.tname)] + self.dump_code("v") + ["}"]
-            L.append("    d%d(v, g1, g2);" % k); exp += dump_exp(state)
-            L.append("    d%d(c, g1, g2);" % k); exp += dump_exp(cstate)
+            pre += ["fn d%d(v: %s, g1: i64, g2: i64, g3: i64) {" % (k, self.tname)] + self.dump_code("v") + ["}"]
+            L.append("    d%d(v, g1, g2, g3);" % k); exp += dump_exp(st["v"])
+            L.append("    d%d(w, g1, g2, g3);" % k); exp += dump_exp(st["w"])
+            L.append("    d%d(c, g1, g2, g3);" % k); exp += dump_exp(cstate)
         L.append("}")
         return self.decls, pre + L, exp
-    def describe(self):
-        return {"type": tstr(self.t), "writes": [(p, v) for p, _, _, v in self.writes]}
+    def op_text(self, op):
+        kd = op[0]
+        if kd == "set": return "%s = %s" % (self.at(op[1], op[2][0]), op[3])
+        if kd == "read": return "read " + self.at(op[1], op[2][0])
+        if kd == "assign": return "%s = %s" % (op[1], op[2])
+        if kd == "id": return "%s = id(%s)" % (op[1], op[2])
+        if kd == "step": return "%s = step(%s)" % (op[1], op[2])
+        if kd == "mk": return "%s = mk()" % op[1]
+        if kd == "loop": return "loop x%d { %s = %s(%s); %s }" % (op[3], op[1], "" if op[4] == "assign" else "step", op[2],
+                                                                   ("%s = %s" % (self.at(op[1], op[5][0]), op[6])) if op[5] else "")
+        if kd == "incloop": return "while %s.F0 < +%d { %s = inc(%s) }" % (op[1], op[2], op[1], op[1])
+        return repr(op)
+    def describe(self, ops=None):
+        return {"type": tstr(self.t), "ops": [self.op_text(o) for o in (self.ops if ops is None else ops)]}
 
 class ResScenario:
     """a function returning E ! T, called on both paths, with sentinels around the results"""
